@@ -38,6 +38,13 @@ CHECKS = {
              "set / fix / release / add error / fit / show. 157k formatting jobs are executed on the real ParameterFormatter (plain, LaTeX, fixed, without uncertainty, unrounded, asymmetric) and parsed back; "
              "every report(), get_result_dict() and to_file() preface of the histories on five fit types is parsed back and compared with the numbers the fit holds, to half a unit of each number's own last digit.",
         note="Trusted: TLC, harness/adapters/format.py, harness/adapters/reportview.py. The LaTeX conversion strips trailing mantissa zeros in scientific notation: only the value clauses are checked there."),
+    "C14": dict(
+        category="model_checking", design_ref="DESIGN.md 4.9, 5/C14",
+        technique="TLA+ spec Forms.tla (each abstract uncertainty source / parameter constraint with the set of concrete forms that denote it and their integer normal form, incl. the sign rule for relative sources on data of mixed sign) model-checked with TLC; TLC-generated declaration histories replayed as PAIRS of real fits (chosen form vs explicit covariance matrix) built through the Python API, the wrapper functions and YAML documents",
+        text="TLC checks SidesDenoteTheSameProblem over all sequences of declarations (sources: absolute / relative, correlation 0, 1/2, 1; constraints: simple and matrix) in every admissible form for data of positive, mixed and negative sign. "
+             "Each history is built twice for real -- scalar, vector, covariance, correlation + errors, absolute equivalents of relative sources, wrapper keywords, YAML shorthand (numbers, lists, percent strings, top-level keys, dict constraints) and explicit YAML, "
+             "model as callable / library name / SymPy string / source text -- and total covariance, cost at three parameter points, constraint cost and do_fit results are compared pairwise and with the spec's normal form.",
+        note="Trusted: TLC, harness/adapters/forms.py. 3 data points, 2 parameters; tolerance 1e-12 on covariances, 1e-9 on costs, 1e-3 sigma on fit results."),
     "C02": dict(
         category="model_checking", design_ref="DESIGN.md 4.2, 5/C02",
         technique="TLA+ spec ErrorModel.tla (sources, reference modes, per-source and total caches, model stale flag, pending histogram entries) model-checked with TLC for 6 container kinds; every bounded history replayed on the real containers / parametric models against the spec's exact integer covariance",
